@@ -270,6 +270,23 @@ class Malformed(Exception):
     pass
 
 
+def drive(ck, reqs):
+    """ck.driver with patience: other checks may be relinking the shared driver executable"""
+    import time
+    last = None
+    for attempt in range(6):
+        try:
+            return ck.driver(reqs)
+        except RuntimeError as e:
+            last = e
+            if 'driver executable missing' not in str(e) and 'driver failed' not in str(e):
+                raise
+            time.sleep(5 + 5 * attempt)
+            if attempt >= 1:
+                ck.build()
+    raise last
+
+
 def ref_parse(tokens):
     """Independent recogniser over generator tokens:
         expr := term ('or' term)* ; term := prim ('and' prim)* ; prim := '(' expr ')' | ID ('='|'!=') LITERAL
@@ -385,10 +402,26 @@ def make_route(attrs):
 
 
 def real_parse(text):
-    """(canonical tree | None, number of errors, the tree object)"""
+    """(canonical tree | None, number of errors, the tree object); an exception escaping the real
+    parser is returned as error count -1 (with the exception in real_parse.last_exc)"""
     from stone.cli_helpers import parse_route_attr_filter
-    tree, errors = parse_route_attr_filter(text)
+    try:
+        tree, errors = parse_route_attr_filter(text)
+    except Exception as e:                      # noqa: broad on purpose, the real code is under test
+        real_parse.last_exc = '%s: %s' % (type(e).__name__, e)
+        return None, -1, None
     return (canon_real_tree(tree) if (tree is not None and not errors) else None), len(errors), tree
+
+
+real_parse.last_exc = None
+
+
+def real_eval(obj, attrs):
+    """bool | 'exception:<type>'"""
+    try:
+        return bool(obj.eval(make_route(attrs)))
+    except Exception as e:                      # noqa
+        return 'exception:%s' % type(e).__name__
 
 
 def canon_real_tree(t):
@@ -430,14 +463,18 @@ def real_lex(text):
     if lx is None:
         lx = real_lex.lexer = FilterExprLexer()
     lx.errors = []
-    lx.lexer.input(text)
     toks = []
-    while True:
-        t = lx.lexer.token()
-        if not t:
-            break
-        toks.append([t.type, canon_lit_value(t.value) if t.type in ('BOOLEAN', 'FLOAT', 'INTEGER', 'NULL', 'STRING')
-                     else t.value])
+    try:
+        lx.lexer.input(text)
+        while True:
+            t = lx.lexer.token()
+            if not t:
+                break
+            toks.append([t.type, canon_lit_value(t.value) if t.type in ('BOOLEAN', 'FLOAT', 'INTEGER', 'NULL', 'STRING')
+                         else t.value])
+    except Exception as e:                      # noqa
+        real_lex.lexer = None
+        return [['EXCEPTION', type(e).__name__]], -1
     return toks, len(lx.errors)
 
 
@@ -579,13 +616,17 @@ def judge_filter_case(text, tree, routes):
     problems = []
     canon, nerr, obj = real_parse(text)
     info = {'canon': canon, 'nerr': nerr, 'vals': None}
+    if nerr == -1:
+        problems.append(('the filter parser raises instead of reporting errors',
+                         {'site': 'filter', 'kind': 'exception'}, {'text': text, 'exception': real_parse.last_exc}))
+        return problems, info
     if nerr or obj is None:
         problems.append(('well-formed filter expression reported as erroneous',
                          {'site': 'filter', 'kind': 'wellformed-rejected'}, {'text': text, 'errors': nerr}))
         return problems, info
     vals = []
     for attrs in routes:
-        got = bool(obj.eval(make_route(attrs)))
+        got = real_eval(obj, attrs)
         vals.append(got)
         want = ref_eval(tree, attrs)
         if want is not None and got != want and len(problems) < 3:
@@ -615,7 +656,7 @@ def _report_filter_problem(ck, what, sig, detail, tree, routes, style_rng):
             if nerr or obj is None:
                 return False
             want = ref_eval(t, bad_attrs)
-            return want is not None and bool(obj.eval(make_route(bad_attrs))) != want
+            return want is not None and real_eval(obj, bad_attrs) != want
         if bad_attrs is not None:
             small = shrink_tree(tree, fails)
             if small is not tree and fails(small):
@@ -624,7 +665,7 @@ def _report_filter_problem(ck, what, sig, detail, tree, routes, style_rng):
                 small_attrs = {k: v for k, v in bad_attrs.items() if k in used}
                 c, nerr, obj = real_parse(txt)
                 case.update({'text': txt, 'attrs': attrs_json(small_attrs),
-                             'real': bool(obj.eval(make_route(small_attrs))),
+                             'real': real_eval(obj, small_attrs),
                              'expected': ref_eval(small, small_attrs), 'shrunk_from': detail['text']})
                 tree = small
     if tree is not None:
@@ -635,9 +676,9 @@ def _report_filter_problem(ck, what, sig, detail, tree, routes, style_rng):
 def suite_filter(ck):
     """well-formed expressions: real tree and evaluation vs model, real evaluation vs reference"""
     rng = ck.rng
-    n_general = ck.scale(700, 9000)
-    n_assign = ck.scale(250, 3000)
-    cap = ck.scale(96, 256)
+    n_general = ck.scale(700, 6000)
+    n_assign = ck.scale(250, 2500)
+    cap = ck.scale(96, 160)
     cases = []
     # (a) independent atoms: all 2^k truth assignments
     for i in range(n_assign):
@@ -698,17 +739,19 @@ def suite_filter(ck):
         routes, full = routes_for(tree, rng, cap)
         cases.append({'tree': tree, 'routes': routes, 'mode': 'general', 'full': full, 'k': len(tree_atoms(tree))})
 
-    reqs = []
-    for c in cases:
-        style = rng.choice(['min', 'min', 'full', 'rand', 'rand'])
-        c['style'] = style
-        c['tokens'] = tree_tokens(c['tree'], rng, style)
-        c['text'] = render(c['tokens'], rng)
-        rj = [attrs_json(a) for a in c['routes']]
-        reqs.append({'op': 'cli.parse', 'text': c['text']})
-        reqs.append({'op': 'cli.eval', 'text': c['text'], 'routes': rj})
-        reqs.append({'op': 'cli.evalspec', 'tree': tree_json(c['tree']), 'routes': rj})
-    rep = ck.driver(reqs)
+    rep = []
+    for lo in range(0, len(cases), 250):            # bounded request batches
+        reqs = []
+        for c in cases[lo:lo + 250]:
+            style = rng.choice(['min', 'min', 'full', 'rand', 'rand'])
+            c['style'] = style
+            c['tokens'] = tree_tokens(c['tree'], rng, style)
+            c['text'] = render(c['tokens'], rng)
+            rj = [attrs_json(a) for a in c['routes']]
+            reqs.append({'op': 'cli.parse', 'text': c['text']})
+            reqs.append({'op': 'cli.eval', 'text': c['text'], 'routes': rj})
+            reqs.append({'op': 'cli.evalspec', 'tree': tree_json(c['tree']), 'routes': rj})
+        rep.extend(drive(ck, reqs))
     for i, c in enumerate(cases):
         m_parse, m_eval, m_spec = rep[3 * i], rep[3 * i + 1], rep[3 * i + 2]
         tree, text, routes = c['tree'], c['text'], c['routes']
@@ -838,6 +881,10 @@ def judge_edited(text, tokens):
         tree = None
         wellformed = False
     canon, nerr, obj = real_parse(text)
+    if nerr == -1:
+        problems.append(('the filter parser raises instead of reporting errors',
+                         {'site': 'filter', 'kind': 'exception'}, {'text': text, 'exception': real_parse.last_exc}))
+        return problems, wellformed, tree, canon, nerr, obj
     if not wellformed and nerr == 0:
         problems.append(('malformed filter expression accepted without an error',
                          {'site': 'filter', 'kind': 'malformed-accepted'}, {'text': text}))
@@ -845,6 +892,34 @@ def judge_edited(text, tokens):
         problems.append(('well-formed filter expression reported as erroneous',
                          {'site': 'filter', 'kind': 'wellformed-rejected'}, {'text': text, 'errors': nerr}))
     return problems, wellformed, tree, canon, nerr, obj
+
+
+def shrink_malformed(tokens, rng):
+    """delete tokens while the recogniser still rejects and the real parser still reports nothing"""
+    def bad(toks):
+        if not toks:
+            return False
+        try:
+            ref_parse(toks)
+            return False
+        except Malformed:
+            pass
+        _c, nerr, _o = real_parse(render(toks, rng, loose=False))
+        return nerr == 0
+    toks = list(tokens)
+    changed = True
+    while changed:
+        changed = False
+        for width in (3, 2, 1):
+            i = 0
+            while i + width <= len(toks):
+                cand = toks[:i] + toks[i + width:]
+                if bad(cand):
+                    toks = cand
+                    changed = True
+                else:
+                    i += 1
+    return render(toks, rng, loose=False)
 
 
 def suite_malformed(ck):
@@ -874,7 +949,7 @@ def suite_malformed(ck):
     reqs = []
     for c in cases:
         reqs.append({'op': 'cli.parse', 'text': c['text']})
-    rep = ck.driver(reqs)
+    rep = drive(ck, reqs)
     for c, m in zip(cases, rep):
         text = c['text']
         problems, wellformed, tree, canon, nerr, obj = judge_edited(text, c['tokens'])
@@ -883,7 +958,9 @@ def suite_malformed(ck):
         for e in c['edits']:
             ck.hist('cli.malformed.edit', e)
         m_ok = 'tree' in m
-        if m_ok != (nerr == 0):
+        if nerr == -1:
+            ck.disagree('cli.malformed.errors', text, 'exception', m)
+        elif m_ok != (nerr == 0):
             ck.disagree('cli.malformed.errors', text, nerr, m)
         elif m_ok and canon_model_tree(m['tree']) != canon:
             ck.disagree('cli.malformed.tree', text, canon, canon_model_tree(m['tree']))
@@ -894,7 +971,7 @@ def suite_malformed(ck):
             routes, _full = routes_for(tree, rng, 24)
             for attrs in routes:
                 want = ref_eval(tree, attrs)
-                got = bool(obj.eval(make_route(attrs)))
+                got = real_eval(obj, attrs)
                 if want is not None and want != got:
                     problems.append(('route %s although its attributes %s the expression' % (
                         ('survives', 'do not satisfy') if got else ('is dropped', 'satisfy')),
@@ -902,6 +979,8 @@ def suite_malformed(ck):
                         {'text': text, 'attrs': attrs_json(attrs), 'real': got, 'expected': want}))
                     break
         for what, sig, detail in problems:
+            if sig['kind'] == 'malformed-accepted':
+                detail = dict(detail, text=shrink_malformed(c['tokens'], rng), shrunk_from=text)
             _report_filter_problem(ck, what, sig, detail, tree, [], rng)
         if not wellformed and len([1 for s in ck.samples if 'malformed' in s]) < 2:
             ck.sample({'malformed': text, 'real_errors': nerr, 'model': m.get('error')})
@@ -920,7 +999,7 @@ def suite_lex(ck):
         t = ''.join(rng.choice(SOUP) for _ in range(rng.randint(1, 10)))
         texts.append(t)
     reqs = [{'op': 'cli.lex', 'text': t} for t in texts] + [{'op': 'cli.parse', 'text': t} for t in texts]
-    rep = ck.driver(reqs)
+    rep = drive(ck, reqs)
     for i, t in enumerate(texts):
         if not ascii_outside_strings(t):
             ck.stat('cli.lex.skipped_non_ascii_outside_string')
@@ -1136,6 +1215,8 @@ class PruneEnv:
                 cli.main()
         except SystemExit as e:
             return ('exit', e.code, err.getvalue())
+        except Exception as e:                  # noqa: an exception escaping main is neither an Api nor a reported error
+            return ('exit', 'exception:%s' % type(e).__name__, '%s\n%s' % (err.getvalue(), e))
         finally:
             sys.argv = old
         mod = sys.modules.get('capture_stoneg_py')
@@ -1418,6 +1499,31 @@ def shrink_opts(env, run, sig):
     return cur
 
 
+_shrink_counter = [0]
+
+
+def shrink_files(root, env, run, sig):
+    """drop whole namespace files (not named in the options, not needed by the schema) and routes'
+    neighbours while the same failure persists; returns the smallest PruneEnv found"""
+    cur = env
+    named = set(run['w']) | set(run['b'])
+    for fn in sorted(env.files):
+        if fn == 'cfg.stone' or fn[:-6] in named:
+            continue
+        files = {k: v for k, v in cur.files.items() if k != fn}
+        if len(files) < 2:
+            break
+        _shrink_counter[0] += 1
+        try:
+            cand = PruneEnv(os.path.join(root, 'shrink%d' % _shrink_counter[0]), files)
+            res = cand.run_main(opts_of(run))
+            if any(s == sig for _w, s, _d in judge_prune(cand, opts_of(run), run['ftree'], run['fwell'], res)):
+                cur = cand
+        except Exception:                       # the spec no longer compiles without that file
+            continue
+    return cur
+
+
 def suite_prune(ck):
     from harness import core
     rng = ck.rng
@@ -1425,6 +1531,7 @@ def suite_prune(ck):
     root = core.scratch('stone-verif-c19-')
     reqs = []
     pending = []
+    seen_sigs = set()
     for si in range(nspecs):
         files, ns_names, fields = gen_spec(rng)
         try:
@@ -1449,11 +1556,17 @@ def suite_prune(ck):
             if opts['f'] == '':
                 ck.stat('cli.prune.empty_filter_text_treated_as_no_filter')
             for what, sig, detail in problems:
+                key = json.dumps(sig, sort_keys=True)
+                if key in seen_sigs:
+                    continue
+                seen_sigs.add(key)
                 small = shrink_opts(env, run, sig)
-                res2 = env.run_main(opts_of(small))
-                p2 = [p for p in judge_prune(env, opts_of(small), small['ftree'], small['fwell'], res2) if p[1] == sig]
+                senv = shrink_files(root, env, small, sig)
+                res2 = senv.run_main(opts_of(small))
+                p2 = [p for p in judge_prune(senv, opts_of(small), small['ftree'], small['fwell'], res2) if p[1] == sig]
                 d2 = p2[0][2] if p2 else detail
-                case = {'suite': 'cli.prune', 'files': env.files, 'opts': opts_of(small), 'detail': d2,
+                what = p2[0][0] if p2 else what
+                case = {'suite': 'cli.prune', 'files': senv.files, 'opts': opts_of(small), 'detail': d2,
                         'filter_wellformed': small['fwell'],
                         'filter_tree': tree_json(small['ftree']) if small['ftree'] else None}
                 ck.failing_input(what, sig, case)
@@ -1463,7 +1576,7 @@ def suite_prune(ck):
                 ck.sample({'opts': opts, 'routes_seen': {ns['name']: [r['name'] + ':' + r['version'] for r in ns['routes']]
                                                          for ns in real['api']['namespaces']},
                            'schema_seen': real['api']['schema']})
-    rep = ck.driver(reqs)
+    rep = drive(ck, reqs)
     for (si, opts, real, result), m in zip(pending, rep):
         if 'api' in m:
             model = {'api': canon_model_api(m['api'])}
@@ -1546,9 +1659,11 @@ def replay(ck, path):
             still = nerr == 0
         elif kind == 'wellformed-rejected':
             still = nerr != 0
+        elif kind == 'exception':
+            still = nerr == -1
         elif 'attrs' in case and obj is not None:
             attrs = {k: _dec(v) for k, v in case['attrs']}
-            got = bool(obj.eval(make_route(attrs)))
+            got = real_eval(obj, attrs)
             want = case.get('expected')
             if case.get('tree'):
                 want = ref_eval(_tree_of_json(case['tree']), attrs)
